@@ -7,12 +7,12 @@ cp $WT/patch.diff $DEST/patch.diff
 cp $WT/demo.sh $DEST/demo.sh; [ -d $WT/demo ] && rm -rf $DEST/demo && cp -r $WT/demo $DEST/demo
 {
 echo "== with change"; git -C $WT diff --stat -- src
-cmake --build $WT/_build --target sqfvm -- -j8 >/dev/null 2>&1 || { echo BUILD-FAIL; exit 2; }
+cmake --build $WT/_build --target sqfvm libsqfvm -- -j8 >/dev/null 2>&1 || { echo BUILD-FAIL; exit 2; }
 ctest --test-dir $WT/_build -j8 --timeout 900 2>&1 | tail -3
 bash $WT/demo.sh >/dev/null 2>&1; echo "demo exit with change: $?"
 echo "== without change"
 git -C $WT apply -R $DEST/patch.diff
-cmake --build $WT/_build --target sqfvm -- -j8 >/dev/null 2>&1 || { echo BUILD-FAIL-ORIG; }
+cmake --build $WT/_build --target sqfvm libsqfvm -- -j8 >/dev/null 2>&1 || { echo BUILD-FAIL-ORIG; }
 bash $WT/demo.sh >/dev/null 2>&1; echo "demo exit without change: $?"
 git -C $WT apply $DEST/patch.diff
 } > $LOG 2>&1
